@@ -289,6 +289,12 @@ D = 0
 def deep():
     tick.hit("deep")
     return ("d", D)
+
+
+def dp():
+    # never called: tq.m1 imports `deep as dp`, the local alias coincides with the name of this other function
+    tick.hit("decoy")
+    return ("decoy", 1)
 '''
 _T14_OUTER = '''
 Z = 0
